@@ -506,4 +506,6 @@ func Run(c *hx.Ctx) {
 	rlCases(c)
 	// several frames per read through the real Dispatch with a receiver that keeps what it is handed (ctx.go)
 	ctxCases(c)
+	// decoded content of every frame vs the same frame decoded alone (pkt.go)
+	pktCases(c)
 }
